@@ -36,6 +36,9 @@ type Case struct {
 	Bursts      []int  `json:"bursts"`    // queries are issued in bursts of this many concurrent calls
 	MaxCQ       int    `json:"max_cq"`
 	SlowCloseMs int    `json:"slow_close_ms"` // Close() of a connection takes this long
+	// Abandon: before the bursts, this many callers give up (context cancelled) while their connection is still being
+	// dialled; the dials then complete, leaving connections in the pool that never carried a query
+	Abandon int `json:"abandon,omitempty"`
 }
 
 func genCase(t *rapid.T) Case {
@@ -63,6 +66,15 @@ func genCase(t *rapid.T) Case {
 	for i := 0; i < nc; i++ {
 		kind := rapid.SampledFrom([]string{"healthy", "healthy", "close_after_reply", "stale_after", "stale_after", "reset_after", "close_inflight", "vanish_after"}).Draw(t, "kind")
 		c.Conns = append(c.Conns, Beh{Kind: kind, K: rapid.IntRange(1, 3).Draw(t, "k")})
+	}
+	if rapid.IntRange(0, 3).Draw(t, "abandon") == 1 {
+		c.Abandon = rapid.IntRange(1, 3).Draw(t, "nabandon")
+		// the abandoned connections are the first ones dialled: some of them die on the first query they ever see
+		for i := 0; i < c.Abandon && i < nc; i++ {
+			if rapid.Bool().Draw(t, "killOnFirst") {
+				c.Conns[i] = Beh{Kind: rapid.SampledFrom([]string{"close_inflight", "vanish_after"}).Draw(t, "k0kind"), K: 0}
+			}
+		}
 	}
 	c.Conns = append(c.Conns, Beh{Kind: "healthy"}) // from here on the server behaves
 	nd := rapid.IntRange(0, 6).Draw(t, "ndial")
@@ -194,6 +206,44 @@ func runCase(c Case, ctx *hx.Ctx) *hx.Failure {
 	}
 	serial := 0
 	retried, failedFreshOrDial, maxAttempts := 0, 0, 0
+	pooledUnused := 0
+	if c.Abandon > 0 {
+		gate := make(chan struct{})
+		env.DialGate = gate
+		var awg sync.WaitGroup
+		for i := 0; i < c.Abandon; i++ {
+			serial++
+			name, id := fmt.Sprintf("s%d.c08.test.", serial), uint16(serial*3)
+			cx, cancel := context.WithCancel(context.Background())
+			awg.Add(1)
+			go func() {
+				defer awg.Done()
+				eng.Exchange(cx, peer.Query(id, name, 16))
+			}()
+			env.WaitDials(i+1, 20*time.Millisecond)
+			time.Sleep(200 * time.Microsecond)
+			cancel()
+		}
+		adone := make(chan struct{})
+		go func() { awg.Wait(); close(adone) }()
+		select {
+		case <-adone:
+		case <-time.After(10 * time.Second):
+			close(gate)
+			ctx.Class("inconclusive:abandoning-callers-slow")
+			return nil
+		}
+		started := env.DialsStarted()
+		close(gate)
+		deadline := time.Now().Add(2 * time.Second)
+		for time.Now().Before(deadline) && env.DialsFinished()+env.DialsCancelled() < started {
+			time.Sleep(200 * time.Microsecond)
+		}
+		// the transport's dial goroutines hand the finished connections to the pool
+		quiesce.WaitGone("getNewConn", time.Second)
+		time.Sleep(500 * time.Microsecond)
+		pooledUnused = len(env.Conns())
+	}
 	for _, n := range c.Bursts {
 		// connections that exist before the burst were certainly not opened for one of its queries;
 		// a connection dialled during the burst may have been opened for any of them
@@ -329,7 +379,7 @@ func runCase(c Case, ctx *hx.Ctx) *hx.Failure {
 				failedFreshOrDial++
 			case attempts >= 3: // a small bounded number of attempts all failed
 			default:
-				return hx.Failf("C08/reused-connection-failure-not-retried", "engine=%s datagram=%v: query %s failed with %q after %d attempt(s), all on connections that had already served queries (sightings %v); a fresh connection to the server works, so it must have been retried", c.Engine, c.Datagram, cl.name, cl.err, attempts, connsOf(seen))
+				return hx.Failf("C08/reused-connection-failure-not-retried", "engine=%s datagram=%v: query %s failed with %q after %d attempt(s), all on connections that existed (in use or pooled) before the query was issued (sightings %v); a fresh connection to the server works, so it must have been retried", c.Engine, c.Datagram, cl.name, cl.err, attempts, connsOf(seen))
 			}
 		}
 	}
@@ -340,6 +390,9 @@ func runCase(c Case, ctx *hx.Ctx) *hx.Failure {
 	}
 	if failedFreshOrDial > 0 {
 		ctx.Class("fresh-failure-reported")
+	}
+	if pooledUnused > 0 {
+		ctx.Class("abandoned-dial-left-unused-connection")
 	}
 	ctx.Classf("max-attempts=%d", maxAttempts)
 	ctx.Sample(c)
